@@ -219,7 +219,65 @@ def run_case(case):
         lg.propagate = old_prop
 
 
+def run_overlap(case):
+    """Two tables of one database read side by side through ONE reader (two read_table() generators advanced alternately, table_names()
+    and a full iteration started in between), with more rows than the reader's batch size: every generator hands out its own table's
+    rows, all of them, in order."""
+    from flow.record.adapter.sqlite import SqliteReader, SqliteWriter
+
+    h = jhash(case)
+    na, nb, batch = case["rows"][0], case["rows"][1], case["batch"]
+    d = os.environ["VERIF_SCRATCH"]
+    _n[0] += 1
+    path = os.path.join(d, "c18o-%d-%d.sqlite" % (os.getpid(), _n[0]))
+    viol = []
+    try:
+        w = SqliteWriter(path)
+        for i in range(max(na, nb)):
+            if i < na:
+                w.write(recs.build_record(KIND["A"](i)))
+            if i < nb:
+                w.write(recs.build_record(KIND["B"](i)))
+        w.close()
+        rd = SqliteReader(path, batch_size=batch)
+        try:
+            ita, itb = rd.read_table("sq/a"), rd.read_table("sq/b")
+            ga, gb = [], []
+            alive = [True, True]
+            step = 0
+            while any(alive):
+                step += 1
+                if case["poke"] == "table_names" and step % 2 == 0:
+                    rd.table_names()
+                if case["poke"] == "iter" and step == 2:
+                    next(iter(rd), None)
+                for k, (it, acc) in enumerate(((ita, ga), (itb, gb))):
+                    if alive[k]:
+                        try:
+                            acc.append(next(it))
+                        except StopIteration:
+                            alive[k] = False
+            wa = [("sq/a", i) for i in range(na)]
+            if [(r._desc.name, int(r.n)) for r in ga if hasattr(r, "n")] != wa or len(ga) != na:
+                viol.append(("C18:reader:overlapping-reads:table-a-differs:poke=%s" % case["poke"], case, {"got": len(ga), "want": na, "types": sorted({r._desc.name for r in ga})}))
+            if [r._desc.name for r in gb] != ["sq/b"] * nb or [float(r.f) for r in gb] != [i + 0.5 for i in range(nb)]:
+                viol.append(("C18:reader:overlapping-reads:table-b-differs:poke=%s" % case["poke"], case, {"got": len(gb), "want": nb, "types": sorted({r._desc.name for r in gb})}))
+        except Exception as e:  # noqa: BLE001
+            viol.append(("C18:reader:overlapping-reads:raises-%s" % type(e).__name__, case, {"error": repr(e)[:200]}))
+        finally:
+            rd.con.close()
+    finally:
+        for suffix in ("", "-journal"):
+            try:
+                os.unlink(path + suffix)
+            except OSError:
+                pass
+    return {"ev": na + nb, "h": h, "nt": True, "out": "overlap:%s" % ("ok" if not viol else "bad"), "viol": viol, "count": {"observer_reads": 1}}
+
+
 def _run_case(case):
+    if case["kind"] == "overlap":
+        return run_overlap(case)
     if case["kind"] == "hist":
         return run_hist_case(case)
     if case["kind"] == "value":
@@ -448,6 +506,10 @@ def cases(tier, seed):
                 yield {"kind": "hist", "hist": list(hist)}
                 if k <= 3:
                     yield {"kind": "hist", "hist": list(hist) + ["close"]}
+    for rows in ([5, 7], [7, 5], [1, 9], [12, 12]):
+        for batch in (1, 2, 3, 5, 1000):
+            for poke in ("none", "table_names", "iter"):
+                yield {"kind": "overlap", "rows": rows, "batch": batch, "poke": poke}
     for n in range(1, 9):
         yield {"kind": "hist", "hist": ["A"] * n}
         yield {"kind": "hist", "hist": ["A"] * n + ["close"]}
